@@ -1,1 +1,1052 @@
-pub fn run(_args: &vcommon::Args) { unimplemented!() }
+//! C19 — Identity documents are always valid and bound to the repository id.
+//!
+//! Three workloads:
+//!  (A) arbitrary JSON documents through every public way a document is accepted from JSON or git
+//!      (`serde_json::from_slice::<Doc>`, `RawDoc::from_json(..).verified()`,
+//!      `serde_json::from_value::<Doc>`, `Doc::from_blob` on a real git blob, `Doc::load_at` on a
+//!      real commit, `serde_json::from_str::<Delegates>` / `<Version>`, and the programmatic
+//!      `RawDoc { pub fields }.verified()` / `Doc::with_edits`). One-directional oracle: whatever
+//!      is ACCEPTED must have 1..=255 distinct delegates, 1 <= threshold <= #delegates, version 1
+//!      — and must say what the JSON said (threshold, de-duplicated delegate list).
+//!  (B) valid documents: encode -> decode equality through both decoders, oid == own SHA-1 git blob
+//!      hash of the emitted bytes.
+//!  (C) `Repository::init` on a real temporary storage: rid == own blob hash of `Doc::encode`'s
+//!      bytes, the blob is in the repository, the document read back from git is equal.
+//!
+//! Reading of the statement (rule 1): rejection is never judged (the statement only constrains
+//! accepted documents). A valid document that gets rejected, or a float-free document whose
+//! encoding fails, is reported as `inconclusive`, not as a violation. "Supported version" = 1
+//! (`IDENTITY_VERSION`); if heartwood ever supports version 2 this monitor must be updated.
+use std::collections::BTreeSet;
+use std::path::Path;
+use std::sync::OnceLock;
+
+use radicle::crypto::PublicKey;
+use radicle::git;
+use radicle::identity::doc::{Delegates, Version};
+use radicle::identity::{Did, Doc, RawDoc, RepoId};
+use radicle::node::device::Device;
+use radicle::node::Alias;
+use radicle::storage::git::{Repository, Storage};
+use radicle::storage::ReadRepository;
+use serde_json::{Map, Value};
+use vcommon::{guarded, hex, json, Args, Reporter, Rng};
+
+use crate::jsgen;
+
+// ---------------------------------------------------------------------------------------------
+// fixtures
+
+const POOL: usize = 320;
+
+/// Deterministic pool of syntactically valid DIDs: (key bytes, canonical text).
+fn pool() -> &'static Vec<([u8; 32], String)> {
+    static P: OnceLock<Vec<([u8; 32], String)>> = OnceLock::new();
+    P.get_or_init(|| {
+        let mut rng = Rng::new(0xD1D5);
+        (0..POOL)
+            .map(|_| {
+                let mut b = [0u8; 32];
+                rng.fill(&mut b);
+                (b, Did::from(PublicKey::from(b)).to_string())
+            })
+            .collect()
+    })
+}
+
+/// Another accepted spelling of the same DID (multibase base16 instead of base58btc).
+fn alt_spelling(key: &[u8; 32]) -> String {
+    format!("did:key:f{}{}", hex(&PublicKey::MULTICODEC_TYPE), hex(key))
+}
+
+pub fn git_blob_sha1(bytes: &[u8]) -> [u8; 20] {
+    let mut h = sha1_smol::Sha1::new();
+    h.update(format!("blob {}\0", bytes.len()).as_bytes());
+    h.update(bytes);
+    h.digest().bytes()
+}
+
+// ---------------------------------------------------------------------------------------------
+// what the generator knows about a document it wrote
+
+#[derive(Debug, Clone, Default)]
+struct Truth {
+    /// Delegate keys in list order (None when some entry is not a well-formed DID string or the
+    /// field is missing / not a list).
+    delegates: Option<Vec<[u8; 32]>>,
+    /// The threshold when it is a plain non-negative integer.
+    threshold: Option<u64>,
+    /// Text-level duplicate fields were appended (no ground truth then).
+    dup_fields: bool,
+}
+
+impl Truth {
+    fn distinct(&self) -> Option<Vec<[u8; 32]>> {
+        self.delegates.as_ref().map(|d| {
+            let mut out: Vec<[u8; 32]> = vec![];
+            for k in d {
+                if !out.contains(k) {
+                    out.push(*k);
+                }
+            }
+            out
+        })
+    }
+}
+
+fn gen_delegates(rng: &mut Rng, big: bool) -> (Value, Option<Vec<[u8; 32]>>, &'static str) {
+    let p = pool();
+    let start = rng.usize(POOL);
+    let take = |n: usize| -> Vec<usize> { (0..n).map(|i| (start + i) % POOL).collect() };
+    let shape = if big { 4 + rng.below(6) } else { rng.weighted(&[1, 4, 4, 5]) as u64 };
+    let (mut idx, name): (Vec<usize>, &'static str) = match shape {
+        0 => (vec![], "empty"),
+        1 => (take(1), "one"),
+        2 => (take(2 + rng.usize(4)), "few"),
+        3 => {
+            let mut v = take(1 + rng.usize(4));
+            for _ in 0..1 + rng.usize(3) {
+                let d = *rng.pick(&v);
+                let at = rng.usize(v.len() + 1);
+                v.insert(at, d);
+            }
+            (v, "few-with-duplicates")
+        }
+        4 => (take(255), "255"),
+        5 => (take(256), "256"),
+        6 => {
+            let mut v = take(255);
+            for _ in 0..1 + rng.usize(45) {
+                let d = *rng.pick(&v);
+                let at = rng.usize(v.len() + 1);
+                v.insert(at, d);
+            }
+            (v, "255-distinct-plus-duplicates")
+        }
+        7 => {
+            let mut v = take(254);
+            let d = *rng.pick(&v);
+            v.push(d);
+            (v, "254-distinct-plus-duplicate")
+        }
+        8 => (take(257 + rng.usize(44)), "257..300"),
+        _ => {
+            // 256 distinct with duplicates in front: the 256th distinct arrives late
+            let mut v = take(256);
+            let d = v[0];
+            v.insert(1, d);
+            (v, "256-distinct-plus-duplicates")
+        }
+    };
+    if rng.chance(1, 6) {
+        rng.shuffle(&mut idx);
+    }
+    let mut keys: Vec<[u8; 32]> = vec![];
+    let mut items: Vec<Value> = vec![];
+    let mut seen: BTreeSet<usize> = BTreeSet::new();
+    for i in idx {
+        let (k, text) = &p[i];
+        // duplicates are sometimes spelled differently
+        let t = if !seen.insert(i) && rng.chance(1, 3) { alt_spelling(k) } else { text.clone() };
+        keys.push(*k);
+        items.push(Value::String(t));
+    }
+    // ill-typed variants
+    match rng.below(24) {
+        0 => {
+            let bad = match rng.below(5) {
+                0 => json!("did:key:z6Mk"),
+                1 => json!(1),
+                2 => Value::Null,
+                3 => json!("z6MknSLrJoTcukLrE435hVNQT4JUhbvWLX4kUzqkEStBU8Vi"),
+                _ => json!("did:key:"),
+            };
+            let at = rng.usize(items.len() + 1);
+            items.insert(at, bad);
+            (Value::Array(items), None, "with-ill-formed-entry")
+        }
+        1 => (items.first().cloned().unwrap_or(Value::Null), None, "not-a-list"),
+        _ => (Value::Array(items), Some(keys), name),
+    }
+}
+
+fn gen_threshold(rng: &mut Rng, distinct: usize, total: usize) -> (Value, Option<u64>) {
+    let d = distinct as u64;
+    let t = total as u64;
+    match rng.below(20) {
+        0 => (json!(0), Some(0)),
+        1 | 2 | 3 => (json!(1), Some(1)),
+        4 | 5 => (json!(d), Some(d)),
+        6 | 7 => (json!(d + 1), Some(d + 1)),
+        8 => (json!(d.saturating_sub(1)), Some(d.saturating_sub(1))),
+        9 => (json!(t), Some(t)),
+        10 => {
+            // between #distinct and #listed (only differs when there are duplicates)
+            let x = rng.range(d.min(t), t.max(d));
+            (json!(x), Some(x))
+        }
+        11 => {
+            let x = *rng.pick(&[254u64, 255, 256, 257, 300]);
+            (json!(x), Some(x))
+        }
+        12 => {
+            let x = *rng.pick(&[u64::MAX, u32::MAX as u64, 1 << 32, (1 << 32) + 1, 65536 + 1]);
+            (json!(x), Some(x))
+        }
+        13 => (rng.pick(&[json!(-1), json!(1.0), json!("1"), Value::Null, json!(true), json!([1]), json!(1.5)]).clone(), None),
+        _ => {
+            let x = rng.range(0, 300);
+            (json!(x), Some(x))
+        }
+    }
+}
+
+fn gen_visibility(rng: &mut Rng) -> Option<Value> {
+    let p = pool();
+    let dids = |n: usize, rng: &mut Rng| -> Vec<Value> {
+        (0..n)
+            .map(|_| {
+                let (k, t) = &p[rng.usize(8)];
+                if rng.chance(1, 5) { json!(alt_spelling(k)) } else { json!(t) }
+            })
+            .collect()
+    };
+    match rng.below(12) {
+        0 => Some(json!({"type": "public"})),
+        1 => Some(json!({"type": "private"})),
+        2 => Some(json!({"type": "private", "allow": []})),
+        3 | 4 => {
+            let n = 1 + rng.usize(4);
+            Some(json!({"type": "private", "allow": dids(n, rng)}))
+        }
+        5 => Some(rng.pick(&[json!({"type": "secret"}), json!("public"), json!({"type": "public", "allow": []}), json!({}), Value::Null, json!({"type": "private", "allow": ["x"]})]).clone()),
+        _ => None,
+    }
+}
+
+const TYPENAMES: &[&str] = &["xyz.radicle.project", "xyz.radicle.project", "com.example.thing", "a", "a.b", "A1.b2", "é.x", "verif.x1"];
+const BAD_TYPENAMES: &[&str] = &["", ".", "a.", ".a", "a..b", "a b", "a/b", "a-b", "e\u{301}", "\u{0}"];
+
+fn project(rng: &mut Rng, g: &mut impl FnMut(&mut Rng) -> String) -> Value {
+    let mut m = Map::new();
+    m.insert("name".into(), json!(if rng.chance(1, 3) { g(rng) } else { "heartwood".to_string() }));
+    m.insert("description".into(), json!(g(rng)));
+    m.insert("defaultBranch".into(), json!("master"));
+    if rng.chance(1, 3) {
+        m.insert(g(rng), json!(g(rng)));
+    }
+    Value::Object(m)
+}
+
+fn gen_payload(rng: &mut Rng, allow_float: bool, allow_collide: bool, only_valid_names: bool) -> Value {
+    let mut m = Map::new();
+    let n = *rng.pick(&[0usize, 1, 1, 1, 2, 3]);
+    for _ in 0..n {
+        let name = if !only_valid_names && rng.chance(1, 10) { rng.pick(BAD_TYPENAMES).to_string() } else { rng.pick(TYPENAMES).to_string() };
+        let v = if rng.chance(1, 3) {
+            let mut sg = |rng: &mut Rng| {
+                let mut g = jsgen::Gen { rng, budget: 0, allow_float: false, allow_collide: false, max_depth: 0 };
+                g.string()
+            };
+            project(rng, &mut sg)
+        } else {
+            {
+                let fl = allow_float && rng.chance(1, 2);
+                jsgen::gen_value(rng, fl, allow_collide)
+            }
+        };
+        m.insert(name, v);
+    }
+    Value::Object(m)
+}
+
+/// An arbitrary document: (text, parsed-value-if-no-text-tricks, truth, shape labels).
+fn gen_arbitrary(rng: &mut Rng) -> (String, Option<Value>, Truth, Vec<&'static str>) {
+    let big = rng.chance(1, 5);
+    let mut labels = vec![];
+    let mut truth = Truth::default();
+    let mut m = Map::new();
+    let mut fields: Vec<(&str, Value)> = vec![];
+    // delegates
+    let (dv, keys, dname) = gen_delegates(rng, big);
+    labels.push(dname);
+    let total = keys.as_ref().map(|k| k.len()).unwrap_or(3);
+    truth.delegates = keys;
+    let distinct = truth.distinct().map(|d| d.len()).unwrap_or(2);
+    if rng.chance(1, 40) {
+        truth.delegates = None;
+        labels.push("delegates-missing");
+    } else {
+        fields.push(("delegates", dv));
+    }
+    // threshold
+    let (tv, t) = gen_threshold(rng, distinct, total);
+    truth.threshold = t;
+    if rng.chance(1, 40) {
+        truth.threshold = None;
+        labels.push("threshold-missing");
+    } else {
+        fields.push(("threshold", tv));
+    }
+    // version
+    match rng.below(10) {
+        0 => fields.push(("version", json!(1))),
+        1 => {
+            labels.push("version-unsupported");
+            fields.push(("version", rng.pick(&[json!(0), json!(2), json!(3), json!(u32::MAX), json!(1u64 << 32), json!((1u64 << 32) + 1), json!(-1), json!("1"), json!(1.0), Value::Null, json!(257), json!(65537)]).clone()))
+        }
+        _ => {}
+    }
+    // payload
+    match rng.below(20) {
+        0 => labels.push("payload-missing"),
+        1 => fields.push(("payload", rng.pick(&[json!([]), Value::Null, json!("x"), json!(1)]).clone())),
+        _ => fields.push(("payload", gen_payload(rng, true, true, false))),
+    }
+    if let Some(v) = gen_visibility(rng) {
+        fields.push(("visibility", v));
+    }
+    if rng.chance(1, 5) {
+        let k = *rng.pick(&["Threshold", "thresholD", "delegate", "Delegates", "foo", "", "version ", "payloads", "type", "allow"]);
+        fields.push((k, rng.pick(&[json!(1), json!(300), json!([]), json!("x"), Value::Null]).clone()));
+    }
+    rng.shuffle(&mut fields);
+    for (k, v) in fields {
+        m.insert(k.to_string(), v);
+    }
+    let value = Value::Object(m);
+    let mut text = if rng.chance(1, 6) { serde_json::to_string_pretty(&value).unwrap() } else { serde_json::to_string(&value).unwrap() };
+    let mut tricks = false;
+    if rng.chance(1, 25) && text.ends_with('}') {
+        // text-level duplicate field
+        text.pop();
+        let extra = match rng.below(3) {
+            0 => format!(",\"threshold\":{}", rng.range(0, 300)),
+            1 => ",\"delegates\":[]".to_string(),
+            _ => ",\"version\":2".to_string(),
+        };
+        text.push_str(&extra);
+        text.push('}');
+        truth.dup_fields = true;
+        tricks = true;
+        labels.push("text-duplicate-field");
+    } else if rng.chance(1, 40) {
+        match rng.below(4) {
+            0 => text.push_str(" x"),
+            1 => text = format!("[{text}]"),
+            2 => {
+                let n = rng.usize(text.len() + 1);
+                let mut e = n;
+                while !text.is_char_boundary(e) {
+                    e -= 1;
+                }
+                text.truncate(e);
+            }
+            _ => text = format!("\u{feff}{text}"),
+        }
+        tricks = true;
+        labels.push("text-damaged");
+    }
+    (text, if tricks { None } else { Some(value) }, truth, labels)
+}
+
+// ---------------------------------------------------------------------------------------------
+// oracle over an accepted document
+
+fn keys_of<'a>(it: impl Iterator<Item = &'a Did>) -> Vec<[u8; 32]> {
+    it.map(|d| {
+        let mut k = [0u8; 32];
+        k.copy_from_slice(&d.as_key()[..]);
+        k
+    })
+    .collect()
+}
+
+/// Check the statement's invariants on an accepted document. Returns the failure shapes.
+fn invariants(doc: &Doc) -> Vec<String> {
+    let mut bad = vec![];
+    let ks = keys_of(doc.delegates().iter());
+    let n = ks.len();
+    if n == 0 {
+        bad.push("C19/accepted/no-delegates".to_string());
+    }
+    if n > 255 {
+        bad.push("C19/accepted/more-than-255-delegates".to_string());
+    }
+    if ks.iter().collect::<BTreeSet<_>>().len() != n {
+        bad.push("C19/accepted/duplicate-delegates".to_string());
+    }
+    if doc.delegates().len() != n {
+        bad.push("C19/accepted/delegates-len-inconsistent".to_string());
+    }
+    let t = doc.threshold();
+    if t == 0 {
+        bad.push("C19/accepted/threshold-zero".to_string());
+    }
+    if t > n {
+        bad.push("C19/accepted/threshold-exceeds-delegates".to_string());
+    }
+    if doc.threshold_nonzero().get() != t {
+        bad.push("C19/accepted/threshold-accessors-disagree".to_string());
+    }
+    if u32::from(*doc.version()) != 1 {
+        bad.push("C19/accepted/unsupported-version".to_string());
+    }
+    bad
+}
+
+fn delegates_invariants(keys: &[[u8; 32]], what: &str) -> Vec<String> {
+    let mut bad = vec![];
+    if keys.is_empty() {
+        bad.push(format!("C19/{what}/no-delegates"));
+    }
+    if keys.len() > 255 {
+        bad.push(format!("C19/{what}/more-than-255-delegates"));
+    }
+    if keys.iter().collect::<BTreeSet<_>>().len() != keys.len() {
+        bad.push(format!("C19/{what}/duplicate-delegates"));
+    }
+    bad
+}
+
+/// Does the accepted document say what the JSON said?
+fn faithful(doc: &Doc, truth: &Truth) -> Vec<String> {
+    let mut bad = vec![];
+    if truth.dup_fields {
+        return bad;
+    }
+    if let Some(t) = truth.threshold {
+        if doc.threshold() as u64 != t {
+            bad.push("C19/accepted/threshold-differs-from-json".to_string());
+        }
+    }
+    if let Some(d) = truth.distinct() {
+        if keys_of(doc.delegates().iter()) != d {
+            bad.push("C19/accepted/delegates-differ-from-json".to_string());
+        }
+    }
+    bad
+}
+
+struct GitScratch {
+    _dir: tempfile::TempDir,
+    repo: git2::Repository,
+}
+
+impl GitScratch {
+    fn new() -> Option<Self> {
+        let dir = crate::scratch_dir().ok()?;
+        let repo = git2::Repository::init_bare(dir.path()).ok()?;
+        Some(GitScratch { _dir: dir, repo })
+    }
+}
+
+fn short(text: &str) -> String {
+    if text.len() > 3000 {
+        let mut e = 3000;
+        while !text.is_char_boundary(e) {
+            e -= 1;
+        }
+        format!("{}…(+{} bytes)", &text[..e], text.len() - e)
+    } else {
+        text.to_string()
+    }
+}
+
+/// Run one document text through the JSON acceptance paths.
+fn judge_arbitrary(rep: &mut Reporter, text: &str, value: Option<&Value>, truth: &Truth, scratch: Option<&GitScratch>, use_blob: bool) -> bool {
+    rep.eval();
+    let bytes = text.as_bytes();
+    let mut paths: Vec<(&'static str, Result<Result<Doc, String>, String>)> = vec![];
+    paths.push(("serde_json::from_slice::<Doc>", guarded(|| serde_json::from_slice::<Doc>(bytes).map_err(|e| e.to_string()))));
+    paths.push(("RawDoc::from_json+verified", guarded(|| RawDoc::from_json(bytes).map_err(|e| e.to_string())?.verified().map_err(|e| e.to_string()))));
+    if let Some(v) = value {
+        let v = v.clone();
+        paths.push(("serde_json::from_value::<Doc>", guarded(move || serde_json::from_value::<Doc>(v).map_err(|e| e.to_string()))));
+    }
+    if use_blob {
+        if let Some(s) = scratch {
+            match s.repo.blob(bytes).and_then(|oid| s.repo.find_blob(oid)) {
+                Ok(blob) => paths.push(("Doc::from_blob", guarded(|| Doc::from_blob(&blob).map_err(|e| e.to_string())))),
+                Err(e) => rep.inconclusive("scratch git repository: cannot write blob", json!({"error": e.to_string()})),
+            }
+        }
+    }
+    let mut accepted = 0;
+    let mut verdicts = vec![];
+    for (name, r) in paths {
+        match r {
+            Err(p) => {
+                // a panic while parsing is not what the statement is about; keep it visible
+                rep.inconclusive("panic while accepting a document", json!({"path": name, "panic": p, "document": short(text)}));
+            }
+            Ok(Err(_)) => {
+                rep.count(&format!("rejected:{name}"));
+                verdicts.push(false);
+            }
+            Ok(Ok(doc)) => {
+                accepted += 1;
+                verdicts.push(true);
+                rep.count(&format!("accepted:{name}"));
+                let mut bad = invariants(&doc);
+                bad.extend(faithful(&doc, truth));
+                for sig in bad {
+                    rep.violation(&sig, json!({"kind": "document", "path": name, "document": text, "accepted_delegates": doc.delegates().len(), "accepted_threshold": doc.threshold(), "accepted_version": u32::from(*doc.version())}));
+                }
+                if accepted == 1 {
+                    let n = doc.delegates().len();
+                    let t = doc.threshold();
+                    if n == 255 { rep.count("accepted.255-delegates"); }
+                    if t == n { rep.count("accepted.threshold-equals-delegates"); }
+                    if t == 1 { rep.count("accepted.threshold-one"); }
+                    if let Some(d) = &truth.delegates {
+                        if d.len() > n { rep.count("accepted.duplicates-were-dropped"); }
+                    }
+                    if doc.is_private() { rep.count("accepted.private"); }
+                }
+            }
+        }
+    }
+    if verdicts.windows(2).any(|w| w[0] != w[1]) {
+        rep.count("observation:acceptance-paths-disagree");
+    }
+    // region counters: documents that MUST not come out as accepted-with-these-values
+    if let (Some(d), Some(t)) = (truth.distinct(), truth.threshold) {
+        if !truth.dup_fields {
+            let n = d.len() as u64;
+            if n == 0 { rep.count("input.no-delegates"); }
+            if n > 255 { rep.count("input.more-than-255-distinct-delegates"); }
+            if n == 256 { rep.count("input.exactly-256-distinct-delegates"); }
+            if t == 0 { rep.count("input.threshold-zero"); }
+            if t == n + 1 { rep.count("input.threshold-one-above-delegates"); }
+            if t > n { rep.count("input.threshold-above-delegates"); }
+            if let Some(l) = &truth.delegates {
+                if (l.len() as u64) > n && t > n && t <= l.len() as u64 {
+                    rep.count("input.threshold-between-distinct-and-listed");
+                }
+            }
+        }
+    }
+    accepted > 0
+}
+
+// ---------------------------------------------------------------------------------------------
+// (B) valid documents
+
+struct ValidDoc {
+    json: Value,
+    n_delegates: usize,
+    clean: bool,
+}
+
+fn gen_valid(rng: &mut Rng, first: Option<&Did>, small: bool) -> ValidDoc {
+    let p = pool();
+    let n = if small { 1 + rng.usize(4) } else { *rng.pick(&[1usize, 1, 2, 3, 3, 5, 8, 17, 254, 255]) };
+    let start = rng.usize(POOL);
+    let mut dids: Vec<Value> = (0..n).map(|i| json!(p[(start + i) % POOL].1)).collect();
+    if let Some(f) = first {
+        dids[0] = json!(f.to_string());
+    }
+    let t = match rng.below(4) {
+        0 => 1,
+        1 => n,
+        _ => 1 + rng.usize(n),
+    };
+    // "clean" documents have NFC payloads (no normalisation can happen); the others exercise the
+    // suspected non-NFC region
+    let clean = rng.chance(2, 3);
+    let collide = !clean && rng.chance(1, 3);
+    let mut payload = gen_payload(rng, false, collide, true);
+    if clean {
+        let mut c = false;
+        payload = jsgen::nfc_model(&payload, &mut c);
+    }
+    let mut m = Map::new();
+    m.insert("payload".into(), payload);
+    m.insert("delegates".into(), Value::Array(dids));
+    m.insert("threshold".into(), json!(t));
+    if rng.chance(1, 4) {
+        m.insert("version".into(), json!(1));
+    }
+    match rng.below(6) {
+        0 => {
+            m.insert("visibility".into(), json!({"type": "public"}));
+        }
+        1 => {
+            m.insert("visibility".into(), json!({"type": "private"}));
+        }
+        2 => {
+            let k = 1 + rng.usize(3);
+            let allow: Vec<Value> = (0..k).map(|_| json!(p[rng.usize(6)].1)).collect();
+            m.insert("visibility".into(), json!({"type": "private", "allow": allow}));
+        }
+        _ => {}
+    }
+    ValidDoc { json: Value::Object(m), n_delegates: n, clean }
+}
+
+/// Classify a decode(encode(d)) != d observation (stable signature per root cause).
+fn classify_mismatch(doc: &Doc, decoded: &Doc, input: &Value) -> &'static str {
+    let mut f = jsgen::Facts::default();
+    jsgen::facts(input, 0, &mut f);
+    if f.keys_collide_after_nfc > 0 {
+        return "C19/encode-decode/payload-keys-collide-after-nfc";
+    }
+    if f.non_nfc_strings > 0 {
+        let (a, b) = (serde_json::to_value(doc), serde_json::to_value(decoded));
+        if let (Ok(a), Ok(b)) = (a, b) {
+            let mut c = false;
+            if jsgen::nfc_model(&a, &mut c) == b && !c {
+                return "C19/encode-decode/non-nfc-payload-string-comes-back-normalised";
+            }
+        }
+    }
+    "C19/encode-decode/decoded-document-differs"
+}
+
+fn judge_valid(rep: &mut Reporter, vd: &ValidDoc) -> Option<(Doc, Vec<u8>)> {
+    rep.eval();
+    let text = serde_json::to_string(&vd.json).unwrap();
+    let wit = |extra: Value| {
+        let mut w = json!({"kind": "valid-document", "document": text});
+        if let (Some(o), Some(e)) = (w.as_object_mut(), extra.as_object()) {
+            for (k, x) in e {
+                o.insert(k.clone(), x.clone());
+            }
+        }
+        w
+    };
+    let doc = match guarded(|| RawDoc::from_json(text.as_bytes()).map_err(|e| e.to_string())?.verified().map_err(|e| e.to_string())) {
+        Ok(Ok(d)) => d,
+        Ok(Err(e)) => {
+            rep.inconclusive("a valid document was rejected", wit(json!({"error": e})));
+            return None;
+        }
+        Err(p) => {
+            rep.inconclusive("panic while accepting a valid document", wit(json!({"panic": p})));
+            return None;
+        }
+    };
+    for sig in invariants(&doc) {
+        rep.violation(&sig, wit(json!({"path": "RawDoc::from_json+verified"})));
+    }
+    if doc.delegates().len() != vd.n_delegates {
+        rep.violation("C19/accepted/delegates-differ-from-json", wit(json!({"accepted": doc.delegates().len()})));
+    }
+    rep.count("valid.accepted");
+    if vd.n_delegates == 255 { rep.count("valid.255-delegates"); }
+    if doc.threshold() == vd.n_delegates { rep.count("valid.threshold-equals-delegates"); }
+    let mut f = jsgen::Facts::default();
+    jsgen::facts(&vd.json, 0, &mut f);
+    if f.non_nfc_strings > 0 { rep.count("valid.has-non-nfc-string"); } else { rep.count("valid.all-strings-nfc"); }
+    if f.keys_collide_after_nfc > 0 { rep.count("valid.keys-collide-after-nfc"); }
+    let _ = vd.clean;
+
+    // with_edits without edits is the identity
+    match guarded(|| doc.clone().with_edits(|_| {})) {
+        Ok(Ok(d2)) if d2 == doc => rep.count("with_edits.identity"),
+        other => rep.violation("C19/with-edits/identity-edit-changes-or-rejects", wit(json!({"got": format!("{:?}", other.map(|r| r.map(|_| "different document").map_err(|e| e.to_string())))}))),
+    }
+
+    let (oid, bytes) = match guarded(|| doc.encode().map_err(|e| e.to_string())) {
+        Ok(Ok(x)) => x,
+        Ok(Err(e)) => {
+            rep.inconclusive("encoding a float-free valid document failed", wit(json!({"error": e})));
+            return None;
+        }
+        Err(p) => {
+            rep.inconclusive("panic while encoding a valid document", wit(json!({"panic": p})));
+            return None;
+        }
+    };
+    // the id is the git blob hash of the emitted bytes (own SHA-1)
+    let own = git_blob_sha1(&bytes);
+    if oid.as_bytes() != own {
+        rep.violation("C19/encode/oid-is-not-git-blob-hash-of-bytes", wit(json!({"oid": oid.to_string(), "own_hash": hex(&own), "encoded": String::from_utf8_lossy(&bytes)})));
+    } else {
+        rep.count("encode.oid-is-blob-hash");
+    }
+    // decode through both decoders
+    let decs: [(&str, Result<Result<Doc, String>, String>); 2] = [
+        ("RawDoc::from_json+verified", guarded(|| RawDoc::from_json(&bytes).map_err(|e| e.to_string())?.verified().map_err(|e| e.to_string()))),
+        ("serde_json::from_slice::<Doc>", guarded(|| serde_json::from_slice::<Doc>(&bytes).map_err(|e| e.to_string()))),
+    ];
+    for (name, r) in decs {
+        match r {
+            Ok(Ok(d2)) => {
+                if d2 == doc {
+                    rep.count("encode-decode.equal");
+                    if f.non_nfc_strings == 0 { rep.count("encode-decode.equal.nfc-document"); }
+                } else {
+                    let sig = classify_mismatch(&doc, &d2, &vd.json);
+                    rep.violation(sig, wit(json!({"decoder": name, "encoded": String::from_utf8_lossy(&bytes)})));
+                }
+                for sig in invariants(&d2) {
+                    rep.violation(&sig, wit(json!({"path": name, "stage": "decode of own encoding"})));
+                }
+            }
+            Ok(Err(e)) => rep.violation("C19/encode-decode/own-encoding-rejected", wit(json!({"decoder": name, "error": e, "encoded": String::from_utf8_lossy(&bytes)}))),
+            Err(p) => rep.inconclusive("panic while decoding an own encoding", wit(json!({"decoder": name, "panic": p}))),
+        }
+    }
+    rep.nontrivial(vcommon::fnv(text.as_bytes()));
+    if rep.wants_sample() && text.len() < 500 && f.non_nfc_strings == 0 {
+        rep.sample(json!({"kind": "valid-document", "document": text, "encoded": String::from_utf8_lossy(&bytes), "oid": oid.to_string()}));
+    }
+    Some((doc, bytes))
+}
+
+// ---------------------------------------------------------------------------------------------
+// programmatic RawDoc / Delegates / Version paths
+
+fn judge_programmatic(rep: &mut Reporter, rng: &mut Rng) {
+    rep.eval();
+    let p = pool();
+    let big = rng.chance(1, 4);
+    let (dv, keys, _) = gen_delegates(rng, big);
+    let Some(keys) = keys else { return };
+    let dids: Vec<Did> = keys.iter().map(|k| Did::from(PublicKey::from(*k))).collect();
+    let mut distinct: Vec<[u8; 32]> = vec![];
+    for k in &keys {
+        if !distinct.contains(k) {
+            distinct.push(*k);
+        }
+    }
+    let (_, t) = gen_threshold(rng, distinct.len(), keys.len());
+    let t = t.unwrap_or(1);
+    // start from a valid one-delegate document and edit it
+    let base: Doc = match serde_json::from_value(json!({"payload": {}, "delegates": [p[0].1], "threshold": 1})) {
+        Ok(d) => d,
+        Err(e) => {
+            rep.inconclusive("base document rejected", json!({"error": e.to_string()}));
+            return;
+        }
+    };
+    let d2 = dids.clone();
+    let r = guarded(move || {
+        base.with_edits(|raw| {
+            raw.delegates = d2;
+            raw.threshold = t as usize;
+        })
+        .map_err(|e| e.to_string())
+    });
+    let wit = json!({"kind": "with_edits", "delegate_keys": keys.iter().map(|k| hex(k)).collect::<Vec<_>>(), "threshold": t});
+    match r {
+        Err(p) => rep.inconclusive("panic in with_edits", json!({"panic": p})),
+        Ok(Err(_)) => rep.count("rejected:Doc::with_edits"),
+        Ok(Ok(doc)) => {
+            rep.count("accepted:Doc::with_edits");
+            let mut bad = invariants(&doc);
+            if keys_of(doc.delegates().iter()) != distinct {
+                bad.push("C19/accepted/delegates-differ-from-json".into());
+            }
+            if doc.threshold() as u64 != t {
+                bad.push("C19/accepted/threshold-differs-from-json".into());
+            }
+            for sig in bad {
+                rep.violation(&sig, wit.clone());
+            }
+        }
+    }
+    // Delegates has its own Deserialize
+    let text = dv.to_string();
+    match guarded(|| serde_json::from_str::<Delegates>(&text).map_err(|e| e.to_string())) {
+        Err(p) => rep.inconclusive("panic in Delegates deserialize", json!({"panic": p})),
+        Ok(Err(_)) => rep.count("rejected:serde_json::from_str::<Delegates>"),
+        Ok(Ok(ds)) => {
+            rep.count("accepted:serde_json::from_str::<Delegates>");
+            let ks = keys_of(ds.iter());
+            let mut bad = delegates_invariants(&ks, "accepted-delegates");
+            if ks != distinct {
+                bad.push("C19/accepted-delegates/differ-from-json".into());
+            }
+            for sig in bad {
+                rep.violation(&sig, json!({"kind": "delegates", "delegates_json": text}));
+            }
+        }
+    }
+    // Version
+    let vt = rng.pick(&["0", "1", "2", "3", "4294967295", "4294967296", "4294967297", "-1", "1.0", "\"1\"", "null", "257", "65537", "01", "1e0"]).to_string();
+    match guarded(|| serde_json::from_str::<Version>(&vt).map_err(|e| e.to_string())) {
+        Err(p) => rep.inconclusive("panic in Version deserialize", json!({"panic": p})),
+        Ok(Err(_)) => rep.count("rejected:serde_json::from_str::<Version>"),
+        Ok(Ok(v)) => {
+            rep.count("accepted:serde_json::from_str::<Version>");
+            if u32::from(v) != 1 {
+                rep.violation("C19/accepted-version/unsupported", json!({"kind": "version", "version_json": vt}));
+            }
+        }
+    }
+}
+
+// ---------------------------------------------------------------------------------------------
+// (C) real storage
+
+fn device(rng: &mut Rng) -> Device<radicle::crypto::test::signer::MockSigner> {
+    let mut seed = [0u8; 32];
+    rng.fill(&mut seed);
+    Device::mock_from_seed(seed)
+}
+
+fn open_storage(path: &Path, key: PublicKey) -> Result<Storage, String> {
+    Storage::open(path.join("storage"), git::UserInfo { alias: Alias::new("verif"), key }).map_err(|e| e.to_string())
+}
+
+/// Commit `embeds/radicle.json = bytes` into `repo` (no ref is touched); returns the commit id.
+fn commit_doc(repo: &git2::Repository, bytes: &[u8]) -> Result<git2::Oid, git2::Error> {
+    let blob = repo.blob(bytes)?;
+    let mut inner = repo.treebuilder(None)?;
+    inner.insert("radicle.json", blob, 0o100_644)?;
+    let inner = inner.write()?;
+    let mut outer = repo.treebuilder(None)?;
+    outer.insert("embeds", inner, 0o040_000)?;
+    let tree = repo.find_tree(outer.write()?)?;
+    let sig = git2::Signature::new("verif", "verif@localhost", &git2::Time::new(1_700_000_000, 0))?;
+    repo.commit(None, &sig, &sig, "doc", &tree, &[])
+}
+
+fn judge_init(rep: &mut Reporter, seed: u64, git_docs: usize) {
+    let mut rng = Rng::new(seed);
+    let dev = device(&mut rng);
+    let did = Did::from(*dev.public_key());
+    let small = rng.chance(3, 4);
+    let vd = gen_valid(&mut rng, Some(&did), small);
+    let Some((doc, bytes)) = judge_valid(rep, &vd) else { return };
+    rep.eval();
+    let text = serde_json::to_string(&vd.json).unwrap();
+    let wit = |extra: Value| {
+        let mut w = json!({"kind": "init", "document": text, "seed": seed});
+        if let (Some(o), Some(e)) = (w.as_object_mut(), extra.as_object()) {
+            for (k, x) in e {
+                o.insert(k.clone(), x.clone());
+            }
+        }
+        w
+    };
+    let dir = match crate::scratch_dir() {
+        Ok(d) => d,
+        Err(e) => {
+            rep.inconclusive("tempdir", json!({"error": e.to_string()}));
+            return;
+        }
+    };
+    let storage = match open_storage(dir.path(), *dev.public_key()) {
+        Ok(s) => s,
+        Err(e) => {
+            rep.inconclusive("storage fixture", json!({"error": e}));
+            return;
+        }
+    };
+    let own = git_blob_sha1(&bytes);
+    let expected = match git2::Oid::from_bytes(&own) {
+        Ok(o) => RepoId::from(o),
+        Err(e) => {
+            rep.inconclusive("oid", json!({"error": e.to_string()}));
+            return;
+        }
+    };
+    let r = guarded(|| Repository::init(&doc, &storage, &dev).map_err(|e| e.to_string()));
+    let (repo, _commit) = match r {
+        Err(p) => {
+            // includes heartwood's own debug_assert_eq!(blob oid, doc oid)
+            rep.violation(&format!("C19/init/panicked/{}", vcommon::panic_site(&p)), wit(json!({"panic": p})));
+            return;
+        }
+        Ok(Err(e)) => {
+            rep.inconclusive("Repository::init failed", wit(json!({"error": e})));
+            return;
+        }
+        Ok(Ok(x)) => x,
+    };
+    rep.count("init.ok");
+    if repo.id != expected {
+        rep.violation("C19/init/rid-is-not-blob-hash-of-canonical-encoding", wit(json!({"rid": repo.id.to_string(), "expected": expected.to_string(), "encoded": String::from_utf8_lossy(&bytes)})));
+    } else {
+        rep.count("init.rid-is-blob-hash");
+    }
+    // the hashed blob is what is stored
+    match repo.backend.find_blob(*expected.deref_oid()) {
+        Ok(b) if b.content() == bytes.as_slice() => rep.count("init.blob-stored"),
+        Ok(_) => rep.violation("C19/init/stored-blob-differs-from-encoding", wit(json!({}))),
+        Err(e) => rep.violation("C19/init/document-blob-not-in-repository", wit(json!({"error": e.to_string()}))),
+    }
+    // read back from git (the commit returned by init is the identity root)
+    match guarded(|| repo.identity_doc_at(_commit).map_err(|e| e.to_string())) {
+        Ok(Ok(at)) => {
+            rep.count("accepted:Repository::identity_doc_at");
+            for sig in invariants(&at.doc) {
+                rep.violation(&sig, wit(json!({"path": "Repository::identity_doc_at"})));
+            }
+            if RepoId::from(at.blob) != repo.id {
+                rep.violation("C19/init/identity-blob-is-not-rid", wit(json!({"blob": at.blob.to_string(), "rid": repo.id.to_string()})));
+            }
+            if at.doc == doc {
+                rep.count("init.read-back-equal");
+            } else {
+                rep.violation(classify_mismatch(&doc, &at.doc, &vd.json), wit(json!({"decoder": "Repository::identity_doc_at", "encoded": String::from_utf8_lossy(&bytes)})));
+            }
+        }
+        Ok(Err(e)) => rep.inconclusive("identity_doc_at after init failed", wit(json!({"error": e}))),
+        Err(p) => rep.inconclusive("panic in identity_doc_at", wit(json!({"panic": p}))),
+    }
+    match guarded(|| repo.identity_doc_of(dev.public_key()).map_err(|e| e.to_string())) {
+        Ok(Ok(d)) => {
+            rep.count("accepted:Repository::identity_doc_of");
+            for sig in invariants(&d) {
+                rep.violation(&sig, wit(json!({"path": "Repository::identity_doc_of"})));
+            }
+        }
+        Ok(Err(e)) => rep.inconclusive("identity_doc_of after init failed", wit(json!({"error": e}))),
+        Err(p) => rep.inconclusive("panic in identity_doc_of", wit(json!({"panic": p}))),
+    }
+    // arbitrary documents "from git": Doc::load_at on real commits of this repository
+    for _ in 0..git_docs {
+        let (t, _, truth, _) = gen_arbitrary(&mut rng);
+        rep.eval();
+        let commit = match commit_doc(&repo.backend, t.as_bytes()) {
+            Ok(c) => c,
+            Err(e) => {
+                rep.inconclusive("cannot commit document", json!({"error": e.to_string()}));
+                continue;
+            }
+        };
+        match guarded(|| Doc::load_at(commit.into(), &repo).map_err(|e| e.to_string())) {
+            Err(p) => rep.inconclusive("panic in Doc::load_at", json!({"panic": p, "document": short(&t)})),
+            Ok(Err(_)) => rep.count("rejected:Doc::load_at"),
+            Ok(Ok(at)) => {
+                rep.count("accepted:Doc::load_at");
+                let mut bad = invariants(&at.doc);
+                bad.extend(faithful(&at.doc, &truth));
+                if at.blob.as_bytes() != git_blob_sha1(t.as_bytes()) {
+                    bad.push("C19/load-at/blob-id-is-not-hash-of-document".into());
+                }
+                for sig in bad {
+                    rep.violation(&sig, json!({"kind": "document", "path": "Doc::load_at", "document": t}));
+                }
+            }
+        }
+    }
+}
+
+trait DerefOid {
+    fn deref_oid(&self) -> &git2::Oid;
+}
+impl DerefOid for RepoId {
+    fn deref_oid(&self) -> &git2::Oid {
+        use std::ops::Deref;
+        let oid: &git::Oid = self.deref();
+        oid.deref()
+    }
+}
+
+// ---------------------------------------------------------------------------------------------
+
+fn replay(rep: &mut Reporter, w: &Value) {
+    let scratch = GitScratch::new();
+    match w["kind"].as_str() {
+        Some("document") => {
+            let text = w["document"].as_str().unwrap_or("");
+            let value = serde_json::from_str::<Value>(text).ok();
+            // ground truth is re-derived from the text where it is plain
+            let mut truth = Truth::default();
+            if let Some(v) = &value {
+                truth.threshold = v["threshold"].as_u64();
+                if let Some(a) = v["delegates"].as_array() {
+                    let ks: Option<Vec<[u8; 32]>> = a
+                        .iter()
+                        .map(|d| {
+                            d.as_str().and_then(|s| s.parse::<Did>().ok()).map(|d| {
+                                let mut k = [0u8; 32];
+                                k.copy_from_slice(&d.as_key()[..]);
+                                k
+                            })
+                        })
+                        .collect();
+                    truth.delegates = ks;
+                }
+            }
+            truth.dup_fields = true; // faithful() needs generator knowledge; replay judges the invariants
+            judge_arbitrary(rep, text, value.as_ref(), &truth, scratch.as_ref(), true);
+        }
+        Some("valid-document") | Some("init") => {
+            let text = w["document"].as_str().unwrap_or("");
+            match serde_json::from_str::<Value>(text) {
+                Ok(v) => {
+                    let n = v["delegates"].as_array().map(|a| a.len()).unwrap_or(0);
+                    if w["kind"].as_str() == Some("init") {
+                        // same seed => same device; the document is regenerated from the seed
+                        judge_init(rep, w["seed"].as_u64().unwrap_or(1), 0);
+                    } else {
+                        judge_valid(rep, &ValidDoc { json: v, n_delegates: n, clean: false });
+                    }
+                }
+                Err(e) => rep.inconclusive("replay: document does not parse", json!({"error": e.to_string()})),
+            }
+        }
+        Some("with_edits") | Some("delegates") | Some("version") => {
+            rep.inconclusive("replay of programmatic cases is by seed only", json!({}));
+        }
+        _ => rep.inconclusive("replay: unknown witness kind", json!({})),
+    }
+}
+
+pub fn run(args: &Args) {
+    let mut rep = Reporter::new("C19");
+    if let Some(path) = &args.replay {
+        let w = vcommon::load_replay(path);
+        replay(&mut rep, &w);
+        rep.finish();
+        return;
+    }
+    let scratch = GitScratch::new();
+    if scratch.is_none() {
+        rep.inconclusive("cannot create scratch git repository", json!({}));
+    }
+    // (A) arbitrary documents
+    let na = args.budget(200_000, 5_000_000);
+    for k in 0..na {
+        let mut rng = Rng::new(args.case_seed(k));
+        let (text, value, truth, labels) = gen_arbitrary(&mut rng);
+        for l in &labels {
+            rep.count(&format!("shape:{l}"));
+        }
+        let acc = judge_arbitrary(&mut rep, &text, value.as_ref(), &truth, scratch.as_ref(), k % 8 == 0);
+        rep.nontrivial(vcommon::fnv(text.as_bytes()));
+        if acc && rep.wants_sample() && text.len() < 400 {
+            rep.sample(json!({"kind": "document", "document": text, "accepted": true}));
+        }
+    }
+    // programmatic paths
+    let np = args.budget(80_000, 2_000_000);
+    for k in 0..np {
+        let mut rng = Rng::new(args.case_seed(1 << 40 | k));
+        judge_programmatic(&mut rep, &mut rng);
+    }
+    // (B) valid documents; a few minimal hand-written ones first (shard 0) so that the first
+    // witness of an encode->decode problem is small
+    if args.shard == 0 {
+        let did = &pool()[0].1;
+        for payload in [
+            json!({"xyz.radicle.project": {"name": "heartwood", "description": "x", "defaultBranch": "master"}}),
+            json!({"xyz.radicle.project": {"name": "e\u{301}"}}),
+            json!({"xyz.radicle.project": {"e\u{301}": 1}}),
+            json!({"xyz.radicle.project": {"\u{e9}": 1, "e\u{301}": 2}}),
+            json!({"xyz.radicle.project": {"a": 1, "a!": 2, "n": u64::MAX, "m": i64::MIN}}),
+        ] {
+            let j = json!({"payload": payload, "delegates": [did], "threshold": 1});
+            judge_valid(&mut rep, &ValidDoc { json: j, n_delegates: 1, clean: false });
+        }
+    }
+    let nv = args.budget(100_000, 2_500_000);
+    for k in 0..nv {
+        let mut rng = Rng::new(args.case_seed(2 << 40 | k));
+        let vd = gen_valid(&mut rng, None, false);
+        judge_valid(&mut rep, &vd);
+    }
+    // (C) real storage
+    let ni = args.budget(96, 2_400);
+    for k in 0..ni {
+        judge_init(&mut rep, args.case_seed(3 << 40 | k), 40);
+    }
+    rep.finish();
+}
